@@ -16,6 +16,7 @@ func registerIntrinsics(P *Program) {
 	registerTime(P)
 	registerMisc(P)
 	registerSDK(P)
+	registerSDK2(P)
 }
 
 func (P *Program) reg(name string, h Intrinsic) { P.intrinsics[name] = h }
@@ -32,24 +33,11 @@ func (it *Interp) anyRange(tag string, lo, hi *big.Int, kind string) *Sym {
 	s := it.declareAny(tag, SInt, kind)
 	if lo != nil {
 		it.emit("(assert (>= " + s.T + " " + lit(lo) + "))")
-		s.NonNeg = lo.Sign() >= 0
+		s.Lo = lo
 	}
 	if hi != nil {
 		it.emit("(assert (<= " + s.T + " " + lit(hi) + "))")
-	}
-	if lo != nil && hi != nil {
-		b := hi.BitLen()
-		if lo.BitLen() > b {
-			b = lo.BitLen()
-		}
-		s.Bits = b
-		if lo.Sign() < 0 && new(big.Int).Neg(lo).Cmp(pow2(b)) == 0 {
-			// e.g. -2^63: |v| <= 2^63 ; keep Bits so that "fits int64" still holds
-			s.Bits = b - 1
-			if s.Bits < hi.BitLen() {
-				s.Bits = hi.BitLen()
-			}
-		}
+		s.Hi = hi
 	}
 	return s
 }
@@ -158,7 +146,15 @@ func registerZZ(P *Program) {
 	})
 	P.reg("zzverif.Choose", func(it *Interp, a []Value) Value {
 		n := int(asBig(a[1]).Int64())
-		return big.NewInt(int64(it.chooseN(n, tagOf(a[0]))))
+		tag := tagOf(a[0])
+		k := it.tagSeen[tag]
+		it.tagSeen[tag] = k + 1
+		if k > 0 {
+			tag = fmt.Sprintf("%s#%d", tag, k)
+		}
+		c := it.chooseN(n, tag)
+		it.choices[tag] = fmt.Sprint(c)
+		return big.NewInt(int64(c))
 	})
 	P.reg("zzverif.AllowPanic", func(it *Interp, a []Value) Value {
 		it.allowPanic = true
@@ -447,6 +443,9 @@ func registerMisc(P *Program) {
 func isBlob(v Value) bool { _, ok := v.(*BlobV); return ok }
 
 func (it *Interp) blobLen(b *BlobV) Value {
+	if b.Kind == "u64be" {
+		return big.NewInt(8)
+	}
 	// a typed blob is non-empty; its exact length is not modelled
 	key := fmt.Sprintf("bloblen:%p", b)
 	if v, ok := it.store[key]; ok {
@@ -455,7 +454,7 @@ func (it *Interp) blobLen(b *BlobV) Value {
 	name := it.freshName("bloblen")
 	it.emit("(declare-const " + name + " Int)")
 	it.emit("(assert (and (>= " + name + " 1) (<= " + name + " 1024)))")
-	v := &Sym{S: SInt, T: name, Bits: 11, NonNeg: true}
+	v := &Sym{S: SInt, T: name, Lo: big.NewInt(1), Hi: big.NewInt(1024)}
 	it.store[key] = v
 	return v
 }
